@@ -61,7 +61,10 @@ def confirm(wt, n):
     return res
 
 def run_check(pid, secs, outdir):
-    env = dict(ENV, VERIF_DIR=outdir, VERIF_SECS=str(secs))
+    # secs=None: the check's own fixed quick budget (what `./check <id> quick` does)
+    env = dict(ENV, VERIF_DIR=outdir)
+    if secs:
+        env["VERIF_SECS"] = str(secs)
     t0 = time.time()
     rc, out = sh(f"{SIM}/target/release/sigsim check {pid} --tier quick", "/verif", env)
     viol = [l for l in out.splitlines() if l.startswith("VIOLATION")]
@@ -69,7 +72,7 @@ def run_check(pid, secs, outdir):
     return {"exit": rc, "violations": viol, "clauses": clauses, "secs": round(time.time() - t0, 1), "harness": [l for l in out.splitlines() if "HARNESS-ERROR" in l][:2]}
 
 def try_patch(patch, prop, secs=None, scan_all=False):
-    outdir = "/tmp/mutout"
+    outdir = (LAB or "/tmp") + "/mutout"
     shutil.rmtree(outdir, ignore_errors=True)
     os.makedirs(outdir)
     shutil.copy("/verif/known-findings.json", outdir)
@@ -85,14 +88,14 @@ def try_patch(patch, prop, secs=None, scan_all=False):
         rc, out = sh("cargo build --release --offline 2>&1 | tail -3", SIM)
         if rc != 0 or "error" in out:
             summary["build"] = out
-        own = run_check(prop, secs or 15, outdir)
+        own = run_check(prop, secs, outdir)
         summary["own"] = own
         if scan_all:
             others = {}
             for pid in IDS:
                 if pid == prop:
                     continue
-                r = run_check(pid, 5, outdir)
+                r = run_check(pid, None, outdir)
                 if r["exit"] != 0:
                     others[pid] = {"exit": r["exit"], "violations": r["violations"], "clauses": [c[:160] for c in r["clauses"]], "harness": r["harness"]}
             summary["others_alarmed"] = others
